@@ -68,8 +68,9 @@ package openapiv3
 //@   ensures* mirrors: result != nil && fresh(result) && result.Name == name && result.In == in && result.Required == required && result.AllowEmptyValue == (in != "path")
 //@ func paramsFromPath$1
 //@   params n pn required at
+//@   locals in:string w:string
+//@   captures wildcards:[]string res:[]*openapiv3.Parameter rand:*expr.ExampleGenerator
 //@   opt captured private
-//@   locals in
 //@   property C14
 //@   requires at != nil
 //@   let out = captured(res)
@@ -81,6 +82,7 @@ package openapiv3
 //@   loop 1 invariant scan: in == "query" && required == old(required) && (forall j int :: 0 <= j && j <= rangeindex ==> wildcards[j] != n)
 //@ func paramsFromHeadersAndCookies$1
 //@   params name elem att
+//@   captures endpoint:*expr.HTTPEndpointExpr params:[]*openapiv3.Parameter rand:*expr.ExampleGenerator
 //@   opt captured private
 //@   property C14
 //@   requires att != nil && endpoint != nil
@@ -90,6 +92,7 @@ package openapiv3
 //@   ensures kept: forall k int :: 0 <= k && k < len(params) ==> out[k] == old(params[k])
 //@ func paramsFromHeadersAndCookies$2
 //@   params name elem att
+//@   captures endpoint:*expr.HTTPEndpointExpr params:[]*openapiv3.Parameter rand:*expr.ExampleGenerator
 //@   opt captured private
 //@   property C14
 //@   requires att != nil && endpoint != nil
@@ -103,26 +106,32 @@ package openapiv3
 // a range over a map appearing anywhere else in the package is reported.
 //@ maprange-census property C09: buildFileServerOperation=1 buildOperation$1=1 responseFromExpr=1 toStringMap=1
 //@ func buildFileServerOperation$1
+//@   params meta
 //@   opt maprange deterministic
 //@   opt inline none
 //@   opt loopframes none
 //@   property C09
 //@ func buildOperation
+//@   params key r bodies rand
+//@   locals e:*expr.HTTPEndpointExpr m:*expr.MethodExpr svc:*expr.HTTPServiceExpr summary:string setSummary:func(metaexpr.MetaExpr) operationIDFormat:string setOperationIDFormat:func(metaexpr.MetaExpr) requestBody:*openapiv3.RequestBodyRef ct:string params:[]*openapiv3.ParameterRef ps:[]*openapiv3.Parameter mt:*openapiv3.MediaType name:string i:int p:*openapiv3.Parameter responses:map[string]*openapiv3.ResponseRef r#2:*expr.HTTPResponseExpr ok:bool resp:*openapiv3.Response b:[]*openapi.Schema er:*expr.HTTPErrorExpr tagNames:[]string resp#2:*openapiv3.Response desc:string content:*openapiv3.MediaType routeIndex:int i#2:int rt:*expr.RouteExpr deprecated:bool
 //@   opt maprange deterministic
 //@   opt inline none
 //@   opt loopframes none
 //@   property C09
 //@ func buildOperation$2
+//@   params meta
 //@   opt maprange deterministic
 //@   opt inline none
 //@   opt loopframes none
 //@   property C09
 //@ func buildPaths
+//@   params h bodies api
 //@   opt maprange deterministic
 //@   opt inline none
 //@   opt loopframes none
 //@   property C09
 //@ func buildTags
+//@   params api
 //@   opt maprange deterministic
 //@   opt inline none
 //@   opt loopframes none
